@@ -21,7 +21,7 @@ def main(tier):
             "template tests CouldWriteValue before forwarding and forwards the transformed value (R-VWRITE); a virtual field is made a plain alias only on paths where it was found to carry no [requires] of its own (R-ALIASGUARD, guard dominance); every OffsetBitBlock method that touches the underlying block applies the window's offset_ (R-WINDOW). "
             "The constants CouldWriteValue compares the value with (UIntView, IntView, BcdView via MaxBcd, EnumView) are folded with a typed C++ constant folder (promotions, conversions, modular arithmetic, undefined behaviour reported) for every width 1..64 and equal the language-level ranges; the masks of MaskToNBits and OffsetBitBlock::MaskInValue are folded for every (width, offset, size) and keep exactly the bits outside the field (R-CPPRANGE). "
             "Not decided: the value-dependent parts (Parameters::ValueIsOk, the conversions ConvertToBcd/ConvertToSigned), byte-level effects."))
-    chk.run("R-SIBLING", C.sibling, cx.cpp, floor=80, control=lambda: cx.cpp_control)
+    chk.run("R-SIBLING", C.sibling, cx.cpp, methods=('TryToWrite', 'Write', 'UncheckedWrite'), floor=80, control=lambda: cx.cpp_control)
     chk.run("R-TWIN", C.twin, cx.cpp, floor=40)
     chk.run("R-INVERSE", W.inverse, cx.repo, floor=3, control=lambda: W.control(cx.repo))
     chk.run("R-VWRITE", W.vwrite, cx.repo, cx.templates, floor=3)
